@@ -107,7 +107,7 @@ Hd_inv = z3.Function("Hd_inv", S, S, S)   # left inverse (collision-freedom)
 utf8 = z3.Function("utf8", S, S)          # bytes(text, 'utf8')
 utf8_inv = z3.Function("utf8_inv", S, S)
 dlen = z3.Function("dlen", S, I)          # digest length in hex characters
-ishex = z3.Function("ishex", S, B)        # lower-case hex string (no '/', '.', whitespace)
+ishex = z3.Function("ishex", S, B)        # hex string, either case (no '/', '.', whitespace)
 trusted("Hd", "hashlib.new(a); update(b)...; hexdigest() = Hd(a, concatenation of the updates)")
 trusted("Hd injective", "Hd(a, .) is injective (hash collision-freedom, idealisation)")
 trusted("utf8 injective", "bytes(s,'utf8') is injective on well-formed strings and "
@@ -214,6 +214,7 @@ class Axioms:
             a, x = t.arg(0), t.arg(1)
             add(Hd_inv(a, t) == x)
             add(ishex(t))
+            add(lower(t) == t)      # hexdigest() is lower-case
             add(dlen(a) >= 1)
         elif n == "utf8":
             x = t.arg(0)
@@ -222,7 +223,9 @@ class Axioms:
             if z3.is_app(x) and x.decl().kind() == z3.Z3_OP_SEQ_CONCAT:
                 add(t == z3.Concat(*[utf8(c) for c in x.children()]))
         elif n == "py_lower" and not z3.is_string_value(t.arg(0)):
-            add(z3.Implies(ishex(t.arg(0)), t == t.arg(0)))   # hex digits are lower-case already
+            # ishex(x) says "hex digits of either case" (a caller may pass a cid in upper case):
+            # lower() is the identity only on digests produced by hashlib (see Hd above)
+            add(z3.Implies(ishex(t.arg(0)), ishex(t)))
             v = pyeval(t)
             if v is not None:
                 add(t == z3.StringVal(v))
